@@ -86,6 +86,8 @@ struct StrictShared {
     next_inst: AtomicU32,
     /// instance whose poll_ready fails
     fail_inst: Option<u32>,
+    /// from this virtual instant on every instance's poll_ready fails (the backend went away)
+    fail_from: Option<u64>,
     /// pending polls before readiness, 2 bits per instance (mod 8)
     pend_mask: u16,
     /// after a call an instance stays not ready for this many virtual ms (a backend that needs
@@ -102,6 +104,8 @@ pub struct Strict {
     polls: u32,
     /// while set and not elapsed this instance reports Pending (woken by the timer, no busy-wake)
     cooling: Option<std::sync::Mutex<std::pin::Pin<Box<tokio::time::Sleep>>>>,
+    /// poll_ready has returned an error: the Tower contract says this instance is to be discarded
+    failed: bool,
 }
 
 impl Clone for Strict {
@@ -112,17 +116,19 @@ impl Clone for Strict {
             ready: false,
             polls: 0,
             cooling: None,
+            failed: false,
         }
     }
 }
 
 impl Strict {
-    fn new(inner: Scripted, fail_inst: Option<u32>, pend_mask: u16, cool_ms: u64) -> Self {
+    fn new(inner: Scripted, fail_inst: Option<u32>, pend_mask: u16, cool_ms: u64, fail_from: Option<u64>) -> Self {
         Strict {
             sh: Arc::new(StrictShared {
                 inner,
                 next_inst: AtomicU32::new(1),
                 fail_inst,
+                fail_from,
                 pend_mask,
                 cool_ms,
             }),
@@ -130,6 +136,7 @@ impl Strict {
             ready: false,
             polls: 0,
             cooling: None,
+            failed: false,
         }
     }
 }
@@ -140,6 +147,13 @@ impl Service<Req> for Strict {
     type Future = BoxFuture<'static, Result<Resp, SErr>>;
 
     fn poll_ready(&mut self, cx: &mut Context<'_>) -> Poll<Result<(), SErr>> {
+        if self.failed {
+            self.sh
+                .inner
+                .shared
+                .log
+                .note("used_after_ready_err", self.inst as i64, 0);
+        }
         if self.ready {
             return Poll::Ready(Ok(()));
         }
@@ -158,12 +172,13 @@ impl Service<Req> for Strict {
             self.sh.inner.shared.log.note("strict_pending", self.inst as i64, 0);
             return Poll::Pending;
         }
-        if self.sh.fail_inst == Some(self.inst) {
+        if self.sh.fail_inst == Some(self.inst) || self.sh.fail_from.map_or(false, |f| crate::sim::now() >= f) {
             self.sh
                 .inner
                 .shared
                 .log
                 .note("strict_ready_err", self.inst as i64, 0);
+            self.failed = true;
             return Poll::Ready(Err(SErr {
                 code: READY_ERR,
                 serial: self.inst as u64,
@@ -175,6 +190,13 @@ impl Service<Req> for Strict {
     }
 
     fn call(&mut self, req: Req) -> Self::Future {
+        if self.failed {
+            self.sh
+                .inner
+                .shared
+                .log
+                .note("used_after_ready_err", self.inst as i64, 1);
+        }
         if !self.ready {
             self.sh.inner.shared.log.note(
                 "contract_violation",
@@ -323,7 +345,8 @@ where
             let mut b = RetryLayer::<Req, CErr>::builder()
                 .max_attempts(3)
                 .fixed_backoff(Duration::from_millis(1))
-                .retry_on(|e: &CErr| matches!(e, CErr::Inner(s) if s.code == RETRY_CODE));
+                // a readiness error looks retryable to the predicate: it still has to surface
+                .retry_on(|e: &CErr| matches!(e, CErr::Inner(s) if s.code == RETRY_CODE || s.code == READY_ERR));
             for l in &listeners {
                 let (a, c, d, e, f) = (l.clone(), l.clone(), l.clone(), l.clone(), l.clone());
                 b = b
@@ -418,11 +441,16 @@ where
         8 => {
             use tower_resilience_reconnect::{ReconnectConfig, ReconnectLayer, ReconnectPolicy};
             let needle = format!("I[{RECONNECT_CODE},");
+            // a readiness error looks reconnectable to the predicate: it still has to surface
+            let needle2 = format!("I[{READY_ERR},");
             let cfg = ReconnectConfig::builder()
                 .max_attempts(3)
                 .policy(ReconnectPolicy::fixed(Duration::from_millis(1)))
                 .retry_on_reconnect(true)
-                .reconnect_predicate(move |e| e.to_string().contains(&needle))
+                .reconnect_predicate(move |e| {
+                    let text = e.to_string();
+                    text.contains(&needle) || text.contains(&needle2)
+                })
                 .build();
             Boxed::new(
                 ReconnectLayer::new(cfg)
@@ -534,6 +562,9 @@ pub enum C20Case {
         /// after each call the strict instance is not ready for this many ms
         #[serde(default)]
         cool_ms: u8,
+        /// from this instant on every inner instance fails its readiness check
+        #[serde(default)]
+        fail_from: Option<u8>,
         /// per request: (instance 0..3, gap ms, first attempt fails with the layer's trigger code, latency)
         requests: Vec<(u8, u8, bool, u8)>,
     },
@@ -570,13 +601,15 @@ fn case_strategy(_tier: Tier) -> BoxedStrategy<C20Case> {
         prop_oneof![3 => Just(None), 1 => (0u8..8).prop_map(Some)],
         prop_oneof![2 => Just(0u8), 1 => 1u8..=8],
         prop::collection::vec((0u8..3, 0u8..=5, any::<bool>(), prop_oneof![Just(0u8), Just(10u8), 0u8..=12]), 1..=6),
+        prop_oneof![3 => Just(None), 1 => (0u8..=30).prop_map(Some)],
     )
-        .prop_map(|(layer, inner, pend_mask, fail_inst, cool_ms, requests)| C20Case::Readiness {
+        .prop_map(|(layer, inner, pend_mask, fail_inst, cool_ms, requests, fail_from)| C20Case::Readiness {
             layer,
             inner,
             pend_mask,
             fail_inst,
             cool_ms,
+            fail_from,
             requests,
         });
     let listeners = (
@@ -709,6 +742,7 @@ async fn readiness(
     pend_mask: u16,
     fail_inst: Option<u8>,
     cool_ms: u8,
+    fail_from: Option<u8>,
     requests: &[(u8, u8, bool, u8)],
 ) -> (Vec<String>, Vec<Ev>, bool) {
     let mut v = vec![];
@@ -739,7 +773,13 @@ async fn readiness(
             }
         }
     });
-    let strict = Strict::new(scripted.clone(), fail_inst.map(|f| f as u32), pend_mask, cool_ms as u64);
+    let strict = Strict::new(
+        scripted.clone(),
+        fail_inst.map(|f| f as u32),
+        pend_mask,
+        cool_ms as u64,
+        fail_from.map(|f| f as u64),
+    );
     let base: Boxed = match inner_kind {
         0 => base_of(strict),
         1 => {
@@ -766,7 +806,10 @@ async fn readiness(
         acc += r.1 as u64;
         at[i] = acc;
     }
-    let horizon = acc + 120;
+    // a serialising inner service (Buffer, cooling instances) queues the calls: every request may
+    // cause up to four inner calls (attempts, hedges), each holding the instance for cool + latency
+    let max_lat = requests.iter().map(|r| r.3 as u64).max().unwrap_or(0);
+    let horizon = acc + 120 + n as u64 * 4 * (cool_ms as u64 + max_lat);
     let mut task: Vec<Option<usize>> = vec![None; n];
     let mut skipped = vec![false; n];
     let mut multi_call_instance = false;
@@ -852,6 +895,16 @@ async fn readiness(
                 lname
             )),
             Ev::Note {
+                kind: "used_after_ready_err",
+                a,
+                b,
+                t,
+            } => v.push(format!(
+                "t={t}: {} {} inner service instance {a} again after that instance's poll_ready had returned an error (a failed service must be discarded; the readiness error has to surface instead)",
+                lname,
+                if *b == 1 { "called" } else { "polled" }
+            )),
+            Ev::Note {
                 kind: "outer_ready_err",
                 a,
                 b: 0,
@@ -895,6 +948,13 @@ async fn readiness(
             _ => None,
         });
         if any_ready_err {
+            if resolve.is_none() {
+                v.push(format!(
+                    "{} over {}: an inner readiness error occurred and request {i} never resolved (readiness errors must surface)",
+                    lname,
+                    ["strict", "tower Buffer", "tower ConcurrencyLimit"][inner_kind as usize]
+                ));
+            }
             continue;
         }
         match resolve {
@@ -1079,6 +1139,7 @@ pub fn run_case(case: &C20Case) -> Report {
             pend_mask,
             fail_inst,
             cool_ms,
+            fail_from,
             requests,
         } => {
             let (v, log, nontrivial) = sim::run_case(readiness(
@@ -1087,6 +1148,7 @@ pub fn run_case(case: &C20Case) -> Report {
                 *pend_mask,
                 *fail_inst,
                 *cool_ms,
+                *fail_from,
                 requests,
             ));
             for m in v {
@@ -1096,6 +1158,9 @@ pub fn run_case(case: &C20Case) -> Report {
             r.class(["inner_strict", "inner_tower_buffer", "inner_tower_concurrency_limit"][*inner as usize]);
             if log.iter().any(|e| matches!(e, Ev::Note { kind: "strict_ready_err", .. })) {
                 r.class("inner_readiness_error");
+            }
+            if fail_from.is_some() && log.iter().any(|e| matches!(e, Ev::Note { kind: "strict_ready_err", .. })) {
+                r.class("inner_readiness_fails_from_some_instant_on");
             }
             if log.iter().any(|e| matches!(e, Ev::Note { kind: "strict_pending", .. })) {
                 r.class("inner_readiness_pending");
